@@ -16,7 +16,9 @@
 //!   O5 a nil bulk reaches the script as `false` (Redis) -- known class: coded as nil
 use rand::seq::SliceRandom;
 use rand::Rng as _;
-use redis_sim::redis::{Command, CommandExecutor, RespValue, RespValueZeroCopy, SDS};
+use redis_sim::redis::lua::SharedScriptCache;
+use redis_sim::redis::{Command, CommandExecutor, RespCodec, RespParser, RespValue, RespValueZeroCopy, SDS};
+use redis_sim::simulator::VirtualTime;
 use serde_json::{json, Value};
 use std::borrow::Cow;
 use std::panic::{catch_unwind, AssertUnwindSafe};
@@ -294,7 +296,7 @@ fn pr_show(r: &PR) -> String {
 }
 fn pr_same(a: &PR, b: &PR) -> bool {
     match (a, b) {
-        (PR::Ok { debug: x, .. }, PR::Ok { debug: y, .. }) => x == y,
+        (PR::Ok { debug: x, term: tx, .. }, PR::Ok { debug: y, term: ty, .. }) => x == y && tx == ty,
         (PR::Err(x), PR::Err(y)) => x == y,
         (PR::Panic(_), PR::Panic(_)) => true,
         _ => false,
@@ -564,13 +566,12 @@ fn in_model_domain(f: &Frame) -> bool {
     }
 }
 fn float_table(f: &Frame) -> String {
-    let mut seen: Vec<&Vec<u8>> = Vec::new();
+    let mut seen: std::collections::HashSet<&Vec<u8>> = std::collections::HashSet::new();
     let mut rows: Vec<String> = Vec::new();
     if let Frame::Arr(v) = f {
         for e in v {
             if let El::Bulk(b) = e {
-                if seen.contains(&b) { continue; }
-                seen.push(b);
+                if !seen.insert(b) { continue; }
                 if let Ok(x) = String::from_utf8_lossy(b).parse::<f64>() {
                     rows.push(format!("({}, {})", chex(b), x.to_bits()));
                 }
@@ -580,6 +581,105 @@ fn float_table(f: &Frame) -> String {
     format!("[{}]", rows.join("; "))
 }
 
+
+
+// ------------------------------------------------------------------ the same frame as wire bytes
+// (what RedisServer and the connection handlers do: RespParser::parse -> from_resp,
+//  RespCodec::parse -> from_resp_zero_copy)
+fn wire_el(e: &El, out: &mut Vec<u8>) {
+    match e {
+        El::Bulk(b) => { out.extend_from_slice(format!("${}\r\n", b.len()).as_bytes()); out.extend_from_slice(b); out.extend_from_slice(b"\r\n"); }
+        El::Int(n) => out.extend_from_slice(format!(":{}\r\n", n).as_bytes()),
+        El::Nil => out.extend_from_slice(b"$-1\r\n"),
+        El::Simple(s) => out.extend_from_slice(format!("+{}\r\n", s).as_bytes()),
+        El::Arr => out.extend_from_slice(b"*1\r\n$1\r\nx\r\n"),
+    }
+}
+fn wire(f: &Frame) -> Vec<u8> {
+    let mut out = Vec::new();
+    match f {
+        Frame::Arr(v) => { out.extend_from_slice(format!("*{}\r\n", v.len()).as_bytes()); for e in v { wire_el(e, &mut out); } }
+        Frame::NullArr => out.extend_from_slice(b"*-1\r\n"),
+        Frame::TopBulk(b) => wire_el(&El::Bulk(b.clone()), &mut out),
+        Frame::TopInt(n) => wire_el(&El::Int(*n), &mut out),
+    }
+    out
+}
+fn run_wire_std(w: &[u8]) -> PR {
+    match catch_unwind(AssertUnwindSafe(|| RespParser::parse(w))) {
+        Ok(Ok((v, n))) if n == w.len() => of_result(catch_unwind(AssertUnwindSafe(|| Command::from_resp(&v)))),
+        Ok(other) => PR::Err(format!("<decoder: {:?}>", other.map(|(_, n)| n))),
+        Err(p) => PR::Panic(panic_msg(p)),
+    }
+}
+fn run_wire_zc(w: &[u8]) -> PR {
+    let mut buf = bytes::BytesMut::from(w);
+    match catch_unwind(AssertUnwindSafe(|| RespCodec::parse(&mut buf))) {
+        Ok(Ok(Some(v))) if buf.is_empty() => of_result(catch_unwind(AssertUnwindSafe(|| Command::from_resp_zero_copy(&v)))),
+        Ok(other) => PR::Err(format!("<decoder: {:?} left {}>", other.map(|o| o.is_some()), buf.len())),
+        Err(p) => PR::Panic(panic_msg(p)),
+    }
+}
+
+// ------------------------------------------------------------------ size boundaries
+const LENS: &[usize] = &[15, 16, 17, 22, 23, 24, 31, 32, 33, 63, 64, 65, 127, 128, 129, 255, 256, 257, 511, 512, 513, 1023, 1024, 1025, 4095, 4096, 4097];
+const BIG_LENS: &[usize] = &[8191, 8192, 8193, 65535, 65536, 65537, 1 << 20, (1 << 20) + 1];
+const COUNTS: &[usize] = &[15, 16, 17, 63, 64, 65, 127, 128, 129, 255, 256, 257, 1023, 1024, 1025];
+const BIG_COUNTS: &[usize] = &[4095, 4096, 4097, 65535, 65536, 65537, 100_000];
+fn blob(rng: &mut Rng, n: usize) -> Vec<u8> {
+    match rng.gen_range(0..4) {
+        0 => vec![b'a'; n],
+        1 => (0..n).map(|j| b'0' + (j % 10) as u8).collect(),
+        2 => (0..n).map(|j| (j % 251) as u8).collect(),
+        _ => { let mut v = vec![b'x'; n]; if n > 0 { v[n - 1] = 0xff; } v }
+    }
+}
+/// one argument of boundary length, or a variadic command with a boundary number of arguments
+fn gen_sized_frame(rng: &mut Rng, big: bool) -> (Frame, String) {
+    let mk = |v: Vec<Vec<u8>>| Frame::Arr(v.into_iter().map(El::Bulk).collect());
+    if rng.gen_bool(0.5) {
+        let n = if big { *BIG_LENS.choose(rng).unwrap() } else { *LENS.choose(rng).unwrap() };
+        let x = blob(rng, n);
+        let f = match rng.gen_range(0..8) {
+            0 => vec![b"SET".to_vec(), b"k".to_vec(), x],
+            1 => vec![b"set".to_vec(), x, b"v".to_vec(), b"EX".to_vec(), b"10".to_vec()],
+            2 => vec![b"GET".to_vec(), x],
+            3 => vec![b"HSET".to_vec(), b"h".to_vec(), x.clone(), x],
+            4 => vec![b"EVAL".to_vec(), x, b"1".to_vec(), b"k".to_vec(), b"a".to_vec()],
+            5 => vec![b"ECHO".to_vec(), x],
+            6 => vec![x, b"k".to_vec()],
+            _ => vec![b"ZADD".to_vec(), b"z".to_vec(), b"1.5".to_vec(), x],
+        };
+        (mk(f), format!("size:arg-len-{}", n))
+    } else {
+        let n = if big { *BIG_COUNTS.choose(rng).unwrap() } else { *COUNTS.choose(rng).unwrap() };
+        let item = |j: usize| -> Vec<u8> { format!("{}", j % 7).into_bytes() };
+        let (head, per): (Vec<Vec<u8>>, usize) = match rng.gen_range(0..7) {
+            0 => (vec![b"DEL".to_vec()], 1),
+            1 => (vec![b"MSET".to_vec()], 2),
+            2 => (vec![b"RPUSH".to_vec(), b"l".to_vec()], 1),
+            3 => (vec![b"HSET".to_vec(), b"h".to_vec()], 2),
+            4 => (vec![b"ZADD".to_vec(), b"z".to_vec()], 2),
+            5 => (vec![b"MGET".to_vec()], 1),
+            _ => (vec![b"SADD".to_vec(), b"s".to_vec()], 1),
+        };
+        let mut f = head;
+        // total element count (incl. name) hits the boundary, or the number of items does
+        let items = if rng.gen_bool(0.5) { n.saturating_sub(f.len()) } else { n * per };
+        for j in 0..items { f.push(item(j)); }
+        if rng.gen_bool(0.15) { f.pop(); }
+        (mk(f), format!("size:arg-count-{}", n))
+    }
+}
+/// EVAL / EVALSHA with numkeys at and around the number of arguments that follow
+fn gen_eval_boundary(rng: &mut Rng) -> (Frame, String) {
+    let total = rng.gen_range(0..6usize);
+    let nk: i64 = total as i64 + *[-1i64, 0, 0, 1, 2].choose(rng).unwrap();
+    let name: &[u8] = if rng.gen_bool(0.5) { b"EVAL" } else { b"evalsha" };
+    let mut f: Vec<Vec<u8>> = vec![name.to_vec(), b"return 1".to_vec(), nk.to_string().into_bytes()];
+    for j in 0..total { f.push(format!("a{}", j).into_bytes()); }
+    (Frame::Arr(f.into_iter().map(El::Bulk).collect()), "size:eval-numkeys-boundary".to_string())
+}
 
 // ------------------------------------------------------------------ redis.call stream
 const LUA_SUBSET: &[&str] = &["GET", "SET", "DEL", "INCR", "DECR", "INCRBY", "HGET", "HSET", "HDEL", "LPUSH", "RPUSH", "LPOP", "RPOP", "LLEN", "SADD", "SREM", "SMEMBERS", "EXISTS", "EXPIRE", "TTL", "TYPE", "HINCRBY", "LRANGE", "RPOPLPUSH", "LMOVE", "HGETALL", "SISMEMBER", "ZADD", "ZREM", "ZRANGE", "ZSCORE", "ZCARD", "ZCOUNT", "ZRANGEBYSCORE"];
@@ -836,26 +936,39 @@ fn main() {
     out.nontrivial_rule = "stream P (7/10 of the cases): grammar-directed request frames for both parsers (every command name of the table in random letter case incl. non-ASCII characters that upper-case to ASCII, arity -2..+2 around each bound, option keywords in any order / duplicated / without value, numbers at and beyond i64/u64/u32 limits with signs, leading zeros, spaces, exponents, empty, non-UTF-8 and non-bulk elements, unknown names, non-array frames); stream L (2/10): a keyspace prefix, then one invocation run directly, through redis.call/redis.pcall(table.unpack(ARGV)) and through a script that prints the Lua value it saw, on twin executors (80% names of the redis.call subset); stream V (1/10): Lua literals (nil, booleans, integers at the i64 limits, floats, binary strings, tables with ok/err fields, holes and nesting) returned from a script. Non-trivial = P: the frame names a command of the table (not decided by 'unknown command' / 'Invalid command format'); L: the invocation was accepted by the direct parser; V: the literal is a table. Distinct by frame / invocation+prefix / literal".to_string();
     let range: Vec<u64> = match args.only { Some(i) => vec![i], None => (0..args.n).collect() };
     let verbose = args.only.is_some();
+    let big = args.get("big", 0) == 1;
     for idx in range {
         let mut rng = case_rng(args.seed, idx);
         match idx % 10 {
-            0..=6 => case_p(&mut out, &mut rng, idx, verbose),
-            7 | 8 => case_l(&mut out, &mut rng, idx, verbose),
+            0..=6 => case_p(&mut out, &mut rng, idx, verbose, big),
+            7 | 8 => case_l(&mut out, &mut rng, idx, verbose, big),
             _ => case_v(&mut out, &mut rng, idx, verbose),
         }
     }
     out.finish(args.seed);
 }
 
-fn case_p(out: &mut Out, rng: &mut Rng, idx: u64, verbose: bool) {
-    let (frame, label) = gen_frame(rng);
+fn case_p(out: &mut Out, rng: &mut Rng, idx: u64, verbose: bool, big: bool) {
+    let sel = rng.gen_range(0..100);
+    let (frame, label) = if sel < 3 { gen_sized_frame(rng, false) } else if sel < 4 { gen_eval_boundary(rng) } else if sel < 5 && big { gen_sized_frame(rng, true) } else { gen_frame(rng) };
     let r1 = run_std(&frame);
     let r2 = run_zc(&frame);
     out.impl_checks += 2;
+    // O6: the same frame as wire bytes through each decoder gives what the value tree gave
+    let w = wire(&frame);
+    let (w1, w2) = (run_wire_std(&w), run_wire_zc(&w));
+    out.impl_checks += 2;
+    if !pr_same(&w1, &r1) || !pr_same(&w2, &r2) {
+        out.violation(idx, "a frame parses differently from wire bytes than from the decoded value", json!({"frame": frame_show(&frame).chars().take(300).collect::<String>(), "wire_hex": hex(&w[..w.len().min(400)]),
+            "from_resp": pr_show(&r1), "RespParser+from_resp": pr_show(&w1), "from_resp_zero_copy": pr_show(&r2), "RespCodec+from_resp_zero_copy": pr_show(&w2)}));
+    }
+    // O7: byte arguments arrive unchanged in SDS fields (big frames are not sent to the model)
+    let frame_bytes: usize = match &frame { Frame::Arr(v) => v.iter().map(|e| match e { El::Bulk(b) => b.len() + 8, _ => 8 }).sum(), _ => 0 };
+    const MODEL_MAX: usize = 3000; // larger terms overflow coqc's parser stack; they are checked by the oracles only
     out.count("stream:P");
     out.count(&format!("cmd:{}", label));
     out.count(match &r1 { PR::Ok { .. } => "outcome:ok", PR::Err(_) => "outcome:err", PR::Panic(_) => "outcome:panic" });
-    let detail = json!({"frame": frame_show(&frame), "frame_hex": match &frame { Frame::Arr(v) => v.iter().map(|e| match e { El::Bulk(b) => hex(b), o => format!("{:?}", o) }).collect::<Vec<_>>(), o => vec![format!("{:?}", o)] },
+    let detail = json!({"frame": frame_show(&frame).chars().take(2000).collect::<String>(), "frame_hex": match &frame { Frame::Arr(v) => v.iter().take(40).map(|e| match e { El::Bulk(b) => hex(&b[..b.len().min(600)]), o => format!("{:?}", o) }).collect::<Vec<_>>(), o => vec![format!("{:?}", o)] },
         "from_resp": pr_show(&r1), "from_resp_zero_copy": pr_show(&r2)});
     // O1: no panic
     for (who, r) in [("from_resp", &r1), ("from_resp_zero_copy", &r2)] {
@@ -870,25 +983,112 @@ fn case_p(out: &mut Out, rng: &mut Rng, idx: u64, verbose: bool) {
     let dom = in_model_domain(&frame);
     if !dom { out.count("domain:outside-uppercase-model(parser-vs-parser only)"); }
     let nontrivial = match &r1 { PR::Ok { tag, .. } => tag != "Unknown", PR::Err(e) => e != "Invalid command format", PR::Panic(_) => true };
-    if dom {
+    if dom && frame_bytes <= MODEL_MAX {
         let term = format!("(KP {} {} {} {})", frame_term(&frame), pr_term(&r1), pr_term(&r2), float_table(&frame));
         out.case(idx, term, nontrivial, &frame_term(&frame));
+    } else if frame_bytes > MODEL_MAX {
+        out.count("size:oracle-only(frame > 3 kB not sent to the Coq model)");
+        // without the model: the expected command of the big shapes is known in closed form
+        if let (Frame::Arr(v), PR::Ok { term, .. }) = (&frame, &r1) {
+            let total: usize = v.iter().map(|e| match e { El::Bulk(b) => b.len(), _ => 0 }).sum();
+            let name_len = match &v[0] { El::Bulk(b) => b.len(), _ => 0 };
+            let hex_len = term.matches(|c: char| c.is_ascii_hexdigit()).count();
+            let _ = (total, name_len, hex_len);
+            let big_args: Vec<&Vec<u8>> = v.iter().filter_map(|e| match e { El::Bulk(b) if b.len() >= 1000 => Some(b), _ => None }).collect();
+            for ba in big_args {
+                let lossy = String::from_utf8_lossy(ba);
+                if !term.contains(&hex(ba)) && !term.contains(&hex(lossy.as_bytes())) && !term.contains(&hex(lossy.to_uppercase().as_bytes())) {
+                    out.violation(idx, "a large argument does not arrive unchanged in the parsed command", json!({"frame": label, "arg_len": ba.len()}));
+                }
+            }
+            if label.starts_with("size:arg-count") {
+                let items = v.len();
+                let rendered = term.matches("S \"").count() + term.matches("B \"").count() + term.matches("Fb ").count();
+                if rendered + 1 != items {
+                    out.violation(idx, "a long argument list loses or gains elements", json!({"frame": label, "elements": items, "fields": rendered}));
+                }
+            }
+        }
     }
-    out.sample(detail.clone());
+    out.sample(json!({"frame": frame_show(&frame).chars().take(200).collect::<String>(), "from_resp": pr_show(&r1).chars().take(200).collect::<String>()}));
     if verbose {
         println!("case {} [P {}]\n frame: {}\n from_resp           -> {}\n from_resp_zero_copy -> {}", idx, label, frame_show(&frame), pr_show(&r1), pr_show(&r2));
     }
 }
 
-fn case_l(out: &mut Out, rng: &mut Rng, idx: u64, verbose: bool) {
-    let setup = gen_setup(rng);
-    let (parts, label) = gen_lua_parts(rng);
+static SHARED: std::sync::OnceLock<SharedScriptCache> = std::sync::OnceLock::new();
+fn shared() -> SharedScriptCache {
+    SHARED.get_or_init(SharedScriptCache::new).clone()
+}
+/// scripts that end badly or vandalise their own Lua state, with the direct commands that have
+/// the same keyspace effect (a failing script is not rolled back)
+const HISTORY: &[(&str, &[&[&[u8]]])] = &[
+    ("redis.call('SET','tmp','1'); error('boom')", &[&[b"SET", b"tmp", b"1"]]),
+    ("redis.call = nil; redis.pcall = 5; KEYS = nil; ARGV = 'junk'; table.unpack = nil; string.format = nil; type = nil; math = nil; return 1", &[]),
+    ("local r = redis.pcall('LPUSH','tmp2'); redis.call('RPUSH','tmpl','a','b'); return redis.call('NOSUCH')", &[&[b"RPUSH", b"tmpl", b"a", b"b"]]),
+    ("return {err='ERR made up'}", &[]),
+    ("while true do local x = nil; x.y = 1 end", &[]),
+];
+const CLOCKS: &[u64] = &[0, 1, 999, 1000, 1001, 1499, 1500, 1501, 99_999, 100_000, 100_001, 200_000, 1 << 40];
+
+fn canonical_literal(p: &[u8]) -> Option<String> {
+    let t = std::str::from_utf8(p).ok()?;
+    if let Ok(n) = t.parse::<i64>() {
+        if n != i64::MIN && n.to_string() == t { return Some(if n < 0 { format!("({})", t) } else { t.to_string() }); }
+    }
+    if t.contains('.') && !t.contains(|c: char| c == 'e' || c == 'E' || c == 'n' || c == 'i') {
+        if let Ok(f) = t.parse::<f64>() {
+            if f.is_finite() && format!("{}", f) == t && f.fract() != 0.0 { return Some(if f < 0.0 { format!("({})", t) } else { t.to_string() }); }
+        }
+    }
+    None
+}
+fn big_lua_parts(rng: &mut Rng, big: bool) -> (Vec<Vec<u8>>, String) {
+    let n = if big { *[4095usize, 4096, 4097, 8192].choose(rng).unwrap() } else { *[255usize, 256, 257, 1000].choose(rng).unwrap() };
+    let len = if big { *[65535usize, 65536, 65537, 1 << 20].choose(rng).unwrap() } else { *[4095usize, 4096, 4097, 8192].choose(rng).unwrap() };
+    match rng.gen_range(0..6) {
+        0 => { let mut p = vec![b"RPUSH".to_vec(), b"l2".to_vec()]; for j in 0..n { p.push(format!("{}", j % 9).into_bytes()); } (p, format!("size:lua-args-{}", n)) }
+        1 => { let mut p = vec![b"HSET".to_vec(), b"h2".to_vec()]; for j in 0..n { p.push(format!("f{}", j).into_bytes()); p.push(b"v".to_vec()); } (p, format!("size:lua-args-{}", 2 * n)) }
+        2 => { let mut p = vec![b"SADD".to_vec(), b"s2".to_vec()]; for j in 0..n { p.push(format!("{}", j).into_bytes()); } (p, format!("size:lua-args-{}", n)) }
+        3 => { let mut p = vec![b"DEL".to_vec()]; for j in 0..n { p.push(format!("k{}", j % 5).into_bytes()); } (p, format!("size:lua-args-{}", n)) }
+        4 => (vec![b"SET".to_vec(), b"k".to_vec(), blob(rng, len)], format!("size:lua-value-{}", len)),
+        _ => (vec![b"set".to_vec(), blob(rng, len.min(70000)), b"v".to_vec()], format!("size:lua-key-{}", len.min(70000))),
+    }
+}
+
+fn case_l(out: &mut Out, rng: &mut Rng, idx: u64, verbose: bool, big: bool) {
+    let mut setup = gen_setup(rng);
+    if rng.gen_bool(0.4) { setup.push(bs(&[b"PEXPIRE", b"j", b"1500"])); }
+    let sel = rng.gen_range(0..100);
+    let (parts, label) = if sel < 3 { big_lua_parts(rng, false) } else if sel < 5 && big { big_lua_parts(rng, true) } else { gen_lua_parts(rng) };
     let use_call = rng.gen_bool(0.3);
+    let use_shared = rng.gen_bool(0.5);
+    let clock = if rng.gen_bool(0.5) { 0 } else { *CLOCKS.choose(rng).unwrap() };
+    let clock_evicts = rng.gen_bool(0.5);
+    let history: Vec<usize> = if rng.gen_bool(0.25) { (0..rng.gen_range(1..3)).map(|_| rng.gen_range(0..HISTORY.len())).collect() } else { vec![] };
+    let mut path = rng.gen_range(0..6);
     out.count("stream:L");
     out.count(&format!("lua:{}", label));
-    let mut exs: Vec<CommandExecutor> = (0..3).map(|_| CommandExecutor::new()).collect();
+    let mk = |sh: bool| if sh { CommandExecutor::with_shared_script_cache(shared()) } else { CommandExecutor::new() };
+    let mut exs: Vec<CommandExecutor> = vec![CommandExecutor::new(), mk(use_shared), mk(use_shared)];
     for ex in exs.iter_mut() {
         for f in &setup { let _ = exec_frame(ex, f); }
+    }
+    // what ran earlier on the script executors: scripts that failed half way / damaged their globals
+    for h in &history {
+        let (src, mirror) = HISTORY[*h];
+        for f in mirror { let _ = exec_frame(&mut exs[0], &bs(f)); }
+        let _ = eval(&mut exs[1], src, &[]);
+        let _ = eval(&mut exs[2], src, &[]);
+        out.count("history:a-script-ended-badly-before");
+    }
+    // the clock moves the same way on all three (set_time evicts, update_time_readonly leaves
+    // expired keys in place)
+    if clock > 0 {
+        for ex in exs.iter_mut() {
+            if clock_evicts { ex.set_time(VirtualTime::from_millis(clock)); } else { ex.update_time_readonly(VirtualTime::from_millis(clock)); }
+        }
+        out.count(if clock_evicts { "clock:set_time" } else { "clock:update_time_readonly" });
     }
     let (mut xa, mut xb, mut xc) = { let mut it = exs.into_iter(); (it.next().unwrap(), it.next().unwrap(), it.next().unwrap()) };
     // A: direct
@@ -907,9 +1107,74 @@ fn case_l(out: &mut Out, rng: &mut Rng, idx: u64, verbose: bool) {
     let uname = String::from_utf8_lossy(&parts[0]).to_uppercase();
     let mode = if uname == "SMEMBERS" { 1 } else if uname == "HGETALL" { 2 } else { 0 };
     let direct = direct.map(|r| if mode == 1 { sort_arr(r) } else if mode == 2 { sort_pairs(r) } else { r });
-    let script_b = format!("{}\nreturn canon(redis.{}(table.unpack(ARGV)), {})", DESCRIBE, fname, mode);
     let script_c = format!("{}\nreturn d(canon(redis.pcall(table.unpack(ARGV)), {}))", DESCRIBE, mode);
-    let rb = eval(&mut xb, &script_b, &parts);
+    // the ways a script and its arguments reach execute_lua_script / redis.call
+    let mut script_b = format!("{}\nreturn canon(redis.{}(table.unpack(ARGV)), {})", DESCRIBE, fname, mode);
+    let mut argv_b: Vec<Vec<u8>> = parts.clone();
+    let mut keys_b: Vec<String> = vec![];
+    if path == 4 && !(parts.len() >= 2 && std::str::from_utf8(&parts[1]).is_ok()) { path = 0; }
+    if path == 5 && !parts.iter().skip(1).any(|p| canonical_literal(p).is_some()) { path = 0; }
+    if parts.len() > 100 && path == 5 { path = 1; } // a Lua call expression takes at most ~250 registers
+    if path == 4 {
+        // first argument through KEYS[1]
+        script_b = format!("{}\nreturn canon(redis.{}(ARGV[1], KEYS[1], table.unpack(ARGV, 2)), {})", DESCRIBE, fname, mode);
+        keys_b = vec![String::from_utf8(parts[1].clone()).unwrap()];
+        argv_b = parts.iter().enumerate().filter(|(j, _)| *j != 1).map(|(_, p)| p.clone()).collect();
+    } else if path == 5 {
+        // numbers as Lua number literals instead of strings
+        let mut exprs: Vec<String> = Vec::new();
+        argv_b = Vec::new();
+        for (j, p) in parts.iter().enumerate() {
+            match canonical_literal(p) {
+                Some(lit) if j > 0 && rng.gen_bool(0.8) => exprs.push(lit),
+                _ => { argv_b.push(p.clone()); exprs.push(format!("ARGV[{}]", argv_b.len())); }
+            }
+        }
+        script_b = format!("{}\nreturn canon(redis.{}({}), {})", DESCRIBE, fname, exprs.join(", "), mode);
+    }
+    let path_name = ["Command::Eval", "SCRIPT LOAD + EVALSHA", "SCRIPT LOAD elsewhere + EVALSHA (shared cache)", "EVAL frame through RespCodec + from_resp_zero_copy", "first argument through KEYS[1]", "numbers as Lua literals"][if path == 2 && !use_shared { 1 } else { path }];
+    out.count(&format!("path:{}", path_name));
+    let args_b: Vec<SDS> = argv_b.iter().map(|a| SDS::new(a.clone())).collect();
+    let rb: Result<RespValue, String> = catch_unwind(AssertUnwindSafe(|| match path {
+        1 | 2 => {
+            let sha = if path == 2 && use_shared {
+                let mut other = CommandExecutor::with_shared_script_cache(shared());
+                other.execute(&Command::ScriptLoad(script_b.clone()))
+            } else {
+                xb.execute(&Command::ScriptLoad(script_b.clone()))
+            };
+            match sha {
+                RespValue::BulkString(Some(h)) => {
+                    let sha1 = String::from_utf8_lossy(&h).to_string();
+                    let r = xb.execute(&Command::EvalSha { sha1: sha1.clone(), keys: keys_b.clone(), args: args_b.clone() });
+                    // the cache commands: the script is known under its SHA-1 (any letter case is not
+                    // required), an unknown one is not, and after SCRIPT FLUSH EVALSHA answers NOSCRIPT
+                    if idx % 4 == 0 {
+                        let ex = xb.execute(&Command::ScriptExists(vec![sha1.clone(), "0".repeat(40)]));
+                        if ex != RespValue::Array(Some(vec![RespValue::Integer(1), RespValue::Integer(0)])) { return RespValue::Error(Cow::Owned(format!("<SCRIPT EXISTS answered {:?}>", ex))); }
+                        if !use_shared {
+                            xb.execute(&Command::ScriptFlush);
+                            let gone = xb.execute(&Command::EvalSha { sha1: sha1.clone(), keys: vec![], args: vec![] });
+                            if !matches!(&gone, RespValue::Error(e) if e.starts_with("NOSCRIPT")) { return RespValue::Error(Cow::Owned(format!("<EVALSHA after SCRIPT FLUSH answered {:?}>", gone))); }
+                        }
+                    }
+                    r
+                }
+                o => o,
+            }
+        }
+        3 => {
+            let mut f: Vec<El> = vec![El::Bulk(b"eVaL".to_vec()), El::Bulk(script_b.clone().into_bytes()), El::Bulk(b"0".to_vec())];
+            f.extend(argv_b.iter().map(|p| El::Bulk(p.clone())));
+            let w = wire(&Frame::Arr(f));
+            let mut buf = bytes::BytesMut::from(&w[..]);
+            match RespCodec::parse(&mut buf) {
+                Ok(Some(v)) => match Command::from_resp_zero_copy(&v) { Ok(c) => xb.execute(&c), Err(e) => RespValue::Error(Cow::Owned(format!("<EVAL frame refused: {}>", e))) },
+                o => RespValue::Error(Cow::Owned(format!("<decoder: {:?}>", o.map(|x| x.is_some())))),
+            }
+        }
+        _ => xb.execute(&Command::Eval { script: script_b.clone(), keys: keys_b.clone(), args: args_b.clone() }),
+    })).map_err(panic_msg);
     let rc = eval(&mut xc, &script_c, &parts);
     let (rb, rc) = match (rb, rc) { (Ok(b), Ok(c)) => (b, c), _ => { out.count("lua:script-execution-panicked"); out.violation(idx, "EVAL panicked", json!({"parts": parts_show(&parts)})); return; } };
     out.impl_checks += 3;
@@ -917,10 +1182,14 @@ fn case_l(out: &mut Out, rng: &mut Rng, idx: u64, verbose: bool) {
     let in_subset = LUA_SUBSET.contains(&name.as_str());
     let direct_unknown = matches!(&direct, Ok(RespValue::Error(e)) if e.starts_with("ERR unknown command"));
     let seen = match &rc { RespValue::BulkString(Some(b)) => Some(String::from_utf8_lossy(b).to_string()), _ => None };
-    let detail = json!({"prefix": setup.iter().map(|f| parts_show(f)).collect::<Vec<_>>(), "invocation": parts_show(&parts), "via": fname,
-        "direct": format!("{:?}", direct), "script_reply": format!("{:?}", rb), "script_saw": seen});
+    let cut = |x: String| -> String { if x.len() > 1500 { format!("{}... ({} chars)", x.chars().take(1500).collect::<String>(), x.len()) } else { x } };
+    let detail = json!({"prefix": setup.iter().map(|f| parts_show(f)).collect::<Vec<_>>(), "invocation": cut(parts_show(&parts)), "via": fname, "path": path_name,
+        "clock_ms": clock, "clock_by": if clock_evicts { "set_time" } else { "update_time_readonly" }, "shared_script_cache": use_shared,
+        "history": history.iter().map(|h| HISTORY[*h].0).collect::<Vec<_>>(),
+        "direct": cut(format!("{:?}", direct)), "script_reply": cut(format!("{:?}", rb)), "script_saw": seen.clone().map(cut)});
     let (da, db) = (dump(&mut xa), dump(&mut xb));
     // O3 / O4
+    let nviol = out.violations.len();
     let is_err = |r: &RespValue| matches!(r, RespValue::Error(_));
     let refused = matches!(&rb, RespValue::Error(e) if e.contains("Unknown Redis command"));
     if !in_subset && refused {
@@ -946,13 +1215,31 @@ fn case_l(out: &mut Out, rng: &mut Rng, idx: u64, verbose: bool) {
             out.violation(idx, "script call and direct call leave different keyspaces", d2);
         }
     }
+    // follow-up behaviour: the same invocation once more on both executors
+    if (in_subset || !refused) && out.violations.len() == nviol && parts.len() <= 300 {
+        let d2 = catch_unwind(AssertUnwindSafe(|| exec_frame(&mut xa, &parts)));
+        let r2 = eval(&mut xb, &format!("{}\nreturn canon(redis.pcall(table.unpack(ARGV)), {})", DESCRIBE, mode), &parts);
+        if let (Ok(d2), Ok(r2)) = (d2, r2) {
+            let d2 = d2.map(|r| if mode == 1 { sort_arr(r) } else if mode == 2 { sort_pairs(r) } else { r });
+            let exp2: RespValue = match &d2 { Ok(r) => conv_coded(r), Err(e) => RespValue::Error(Cow::Owned(sanitize(e))) };
+            out.impl_checks += 1;
+            if r2 != exp2 || dump(&mut xa) != dump(&mut xb) {
+                let mut dd = detail.clone();
+                dd["second_direct"] = json!(format!("{:?}", d2)); dd["second_script"] = json!(format!("{:?}", r2));
+                out.violation(idx, "repeating the invocation: script call and direct call diverge", dd);
+            }
+        }
+    }
     // O5: a nil reply reaches the script as false (Redis convention)
     if let (Ok(r), Some(sw)) = (&direct, &seen) {
         if has_nil(r) && !refused && sw.contains("LNil") { out.known("C16-lua-nil-not-false", idx, detail.clone()); }
     }
     let direct_term = match &direct { Ok(r) => format!("(DReply {})", resp_term(r)), Err(e) => format!("(DParseErr {})", chex(e.as_bytes())) };
     let dom = parts.iter().all(|p| in_model_domain(&Frame::Arr(vec![El::Bulk(p.clone())])));
-    if dom {
+    let parts_bytes: usize = parts.iter().map(|p| p.len() + 8).sum();
+    let reply_bytes = format!("{:?}{:?}", rb, seen).len();
+    if parts_bytes > 3000 || reply_bytes > 6000 { out.count("size:oracle-only(invocation > 3 kB not sent to the Coq model)"); }
+    if dom && parts_bytes <= 3000 && reply_bytes <= 6000 {
         let term = format!("(KL {} {} {} {} {})", clist(parts.iter(), |p| chex(p)), cbool(use_call), direct_term, resp_term(&rb), match &seen { Some(t) => format!("(Some {})", t), None => "None".to_string() });
         out.case(idx, term, direct.is_ok(), &format!("{:?}{:?}", setup, parts));
     }
@@ -961,15 +1248,94 @@ fn case_l(out: &mut Out, rng: &mut Rng, idx: u64, verbose: bool) {
     }
 }
 
+/// redis.call / redis.pcall with arguments that are not strings (parse_multivalue_to_bytes):
+/// numbers are rendered, anything else is refused and nothing is executed
+fn case_args(out: &mut Out, rng: &mut Rng, idx: u64, verbose: bool) {
+    out.count("stream:V(argument types)");
+    let f = if rng.gen_bool(0.5) { "call" } else { "pcall" };
+    let bad = ["true", "false", "nil", "{}", "{1,2}", "print", "{ok='x'}"];
+    let (src, expect_err, expect_val): (String, Option<&str>, Option<Vec<u8>>) = match rng.gen_range(0..7) {
+        0 => (format!("return redis.{}('SET','k',{})", f, bad.choose(rng).unwrap()), Some("Invalid argument type for redis command"), None),
+        1 => (format!("return redis.{}({},'k','v')", f, bad.choose(rng).unwrap()), Some("Invalid argument type for redis command"), None),
+        2 => (format!("return redis.{}()", f), Some("requires at least one argument"), None),
+        3 => { let n = *[0i64, 7, -1, i64::MAX, 1 << 53].choose(rng).unwrap(); (format!("redis.{}('SET','k',{}) return redis.call('GET','k')", f, n), None, Some(n.to_string().into_bytes())) }
+        4 => { let x = *[1.5f64, -2.25, 0.1, 1e15, 1e100, 3.0].choose(rng).unwrap(); (format!("redis.{}('SET','k',{:?}) return redis.call('GET','k')", f, x), None, Some(format!("{}", x).into_bytes())) }
+        5 => (format!("redis.{}('SET', 'k', 'a', 'EX', 5) return redis.call('TTL','k')", f), None, None),
+        _ => {
+            // functions / coroutines / userdata-like values returned from a script convert to nil
+            let src = format!("return {}", ["print", "coroutine.create(print)", "redis.call", "function() end"].choose(rng).unwrap());
+            let mut ex = CommandExecutor::new();
+            let r = eval(&mut ex, &src, &[]);
+            out.impl_checks += 1;
+            if r != Ok(RespValue::BulkString(None)) { out.violation(idx, "a non-data Lua value does not convert to nil", json!({"script": src, "reply": format!("{:?}", r)})); }
+            return;
+        }
+    };
+    let mut ex = CommandExecutor::new();
+    let r = match eval(&mut ex, &src, &[]) { Ok(r) => r, Err(m) => { out.violation(idx, "EVAL panicked", json!({"script": src, "panic": m})); return; } };
+    out.impl_checks += 1;
+    let ks = dump(&mut ex);
+    let ok = match (&r, expect_err, &expect_val) {
+        (RespValue::Error(e), Some(t), _) => e.contains(t) && ks.is_empty(),
+        (RespValue::BulkString(Some(b)), None, Some(v)) => b == v,
+        (RespValue::Integer(5), None, None) => true,
+        _ => false,
+    };
+    if !ok {
+        out.violation(idx, "redis.call with a non-string argument: wrong rendering, or a refused call had an effect", json!({"script": src, "reply": format!("{:?}", r), "keyspace": ks}));
+    }
+    if verbose { println!("case {} [V args]\n script: {}\n reply -> {:?}\n keyspace: {:?}", idx, src, r, ks); }
+}
+
+/// lua_to_resp as the code has it, on the harness's literals (used as the oracle for literals
+/// too large to hand to coqc, and cross-checked against the model on all others)
+fn lv_expected(v: &LV) -> RespValue {
+    fn get_str(o: &Option<Box<LV>>) -> Option<String> {
+        match o.as_deref() {
+            Some(LV::Str(b)) => String::from_utf8(b.clone()).ok(),
+            Some(LV::Int(n)) => Some(n.to_string()),
+            _ => None,
+        }
+    }
+    match v {
+        LV::Nil | LV::Bool(false) => RespValue::BulkString(None),
+        LV::Bool(true) => RespValue::Integer(1),
+        LV::Int(n) => RespValue::Integer(*n),
+        LV::Num(f) => RespValue::BulkString(Some(format!("{}", f).into_bytes())),
+        LV::Str(b) => RespValue::BulkString(Some(b.clone())),
+        LV::Tab(ok, err, arr) => {
+            if let Some(e) = get_str(err) { return RespValue::Error(Cow::Owned(sanitize(&e))); }
+            if let Some(o) = get_str(ok) { return RespValue::SimpleString(Cow::Owned(sanitize(&o))); }
+            RespValue::Array(Some(arr.iter().take_while(|x| !matches!(x, LV::Nil)).map(lv_expected).collect()))
+        }
+    }
+}
+fn lv_size(v: &LV) -> usize {
+    match v { LV::Str(b) => b.len() + 4, LV::Tab(o, e, a) => 8 + o.as_deref().map_or(0, lv_size) + e.as_deref().map_or(0, lv_size) + a.iter().map(lv_size).sum::<usize>(), _ => 8 }
+}
+
 fn case_v(out: &mut Out, rng: &mut Rng, idx: u64, verbose: bool) {
-    let v = gen_lv(rng, 3);
+    if rng.gen_range(0..10) == 0 { return case_args(out, rng, idx, verbose); }
+    let v = match rng.gen_range(0..25) {
+        0 => { let n = *[255usize, 256, 257, 1000, 4096].choose(rng).unwrap(); out.count("size:lua-array-len"); LV::Tab(None, None, (0..n).map(|j| if j % 97 == 96 { LV::Str(vec![b'x'; 3]) } else { LV::Int(j as i64) }).collect()) }
+        1 => { let d = *[31usize, 32, 33, 60].choose(rng).unwrap(); out.count("size:lua-nesting-depth"); let mut v = LV::Int(1); for _ in 0..d { v = LV::Tab(None, None, vec![v]); } v }
+        2 => { let n = *[4095usize, 4096, 4097, 65536].choose(rng).unwrap(); out.count("size:lua-string-len"); LV::Str(vec![b'z'; n]) }
+        _ => gen_lv(rng, 3),
+    };
     out.count("stream:V");
     let src = format!("return {}", lv_src(&v));
     let mut ex = CommandExecutor::new();
     let r = match eval(&mut ex, &src, &[]) { Ok(r) => r, Err(m) => { out.violation(idx, "EVAL panicked", json!({"script": src, "panic": m})); return; } };
     out.impl_checks += 1;
-    let term = format!("(KV {} {})", lv_term(&v), resp_term(&r));
-    out.case(idx, term, matches!(v, LV::Tab(..)), &src);
+    if r != lv_expected(&v) {
+        out.violation(idx, "a Lua value returned from a script converts to the wrong reply", json!({"script": src.chars().take(400).collect::<String>(), "reply": format!("{:?}", r).chars().take(400).collect::<String>()}));
+    }
+    if lv_size(&v) <= 3000 {
+        let term = format!("(KV {} {})", lv_term(&v), resp_term(&r));
+        out.case(idx, term, matches!(v, LV::Tab(..)), &src);
+    } else {
+        out.count("size:oracle-only(literal > 3 kB not sent to the Coq model)");
+    }
     if verbose {
         println!("case {} [V]\n script: {}\n reply -> {:?}", idx, src, r);
     }
